@@ -328,6 +328,11 @@ func impReplay(h []impStep) (fail *impFailure) {
 				pkg.NewVarStart(token.NoPos, nil, name).Val(ref("F")).EndInit(1)
 			case "livetype":
 				pkg.NewType("T" + name).InitType(pkg, types.NewPointer(ref("T").Type()))
+			case "tparam": // type Tr[T p.T] struct{}: the constraint of a type parameter
+				c := types.NewInterfaceType(nil, []types.Type{ref("T").Type()})
+				c.MarkImplicit()
+				tp := types.NewTypeParam(types.NewTypeName(token.NoPos, pkg.Types, "T", nil), c)
+				pkg.NewType("T"+name).InitType(pkg, types.NewStruct(nil, nil), tp)
 			case "labeled":
 				body(func() {
 					l := cb.NewLabel(token.NoPos, token.NoPos, "L")
@@ -584,7 +589,7 @@ type impConf struct {
 	cfg  string
 }
 
-const impAllPositions = `{"param","result","varvalue","livetype","labeled","mapkey","mapvalue","slicekey","littype","funclit"}`
+const impAllPositions = `{"param","result","varvalue","livetype","labeled","mapkey","mapvalue","slicekey","littype","funclit","tparam"}`
 
 func impCfg(maxOps int, paths, names, binds, ops, pathSets string, positions ...string) string {
 	pos := `{"mapkey"}`
